@@ -43,3 +43,40 @@ PROPS = {
                 trust=["packages.Load / go list terminate (watchdog)"]),
     "C20": dict(module="MoqModel.Props.C20", stages=["corr"], oracles=["C20"], trust=[]),
 }
+
+
+# Which regenerated facts each property's theorems and tie read (prefixes of the extractor's scopes).
+# A fact the extractor cannot read any more is a broken obligation for exactly these properties;
+# the tables have fall-backs, so the model still runs and the byte-level correspondence says
+# whether the fall-back is what the code does.
+CORR_PROPS = ["C01", "C02", "C03", "C04", "C05", "C06", "C07", "C08", "C09", "C10", "C11", "C12", "C13", "C14",
+              "C16", "C19", "C20"]
+FACTS = {p: ["template", "extractor"] for p in CORR_PROPS}
+for p in ("C15", "C17", "C18"):
+    FACTS[p] = ["extractor"]
+FACTS["C11"] += ["tables.replacer", "tables.vendor"]
+FACTS["C10"] += ["tables.vendor"]
+FACTS["C12"] += ["tables.reserved", "tables.suffix", "tables.outSuffix"]
+FACTS["C13"] += ["tables.reserved", "tables.suffix", "tables.initialisms", "tables.outSuffix"]
+FACTS["C14"] += ["facts"]
+FACTS["C15"] += ["glue.runProg"]
+FACTS["C16"] += ["glue.formatProg", "glue.gofmtProg", "glue.goimportsProg", "facts"]
+FACTS["C17"] += ["glue.runProg", "glue.mockProg", "glue.mainProg"]
+FACTS["C18"] += ["glue.runProg", "glue.mainProg", "facts"]
+FACTS["C19"] += ["glue.runProg", "glue.mockProg", "glue.lookupProg", "glue.registryNewProg", "glue.gofmtProg",
+                 "glue.goimportsProg", "glue.newProg"]
+FACTS["C20"] += ["glue.parseNameProg", "glue.mockProg"]
+
+
+def extract_failures_for(prop, fails):
+    """The extractor failures that concern `prop`: lines `EXTRACT-FAIL: [scope] …`; untagged lines
+    (the extractor itself does not build or crashed) concern everybody."""
+    import re
+    out = []
+    for l in fails:
+        m = re.match(r"EXTRACT-FAIL: \[([\w.?]+)\]", l)
+        if not m:
+            out.append(l)
+        elif any(m.group(1) == f or m.group(1).startswith(f + ".") for f in FACTS.get(prop, [])):
+            out.append(l)
+    return out
